@@ -214,6 +214,7 @@ struct SymF : public Sym {
   template<class A, SYMX_ARITH(A)>
   SymF (A a) : Sym (sym_un (symx::RND32, Sym(a), symx::real_t(float(a)))) { }
   SymF& operator = (const Sym& s) { Sym::operator= (SymF(s)); return *this; }
+  template<class A, SYMX_ARITH(A)> SymF& operator = (A a) { Sym::operator= (SymF(a)); return *this; }
   SymF& operator += (const Sym& o) { return *this = SymF (Sym(*this) + o); }
   SymF& operator -= (const Sym& o) { return *this = SymF (Sym(*this) - o); }
   SymF& operator *= (const Sym& o) { return *this = SymF (Sym(*this) * o); }
